@@ -15,6 +15,7 @@ type ProgressFacts struct {
 // CheckWorkConservation is clause (a) of C05 on one allocate-only cycle: no ready, fully pending workload whose
 // identical pods demonstrably fit on idle capacity (by counting) and respect the queue limits may be left.
 func CheckWorkConservation(w *World, rec *CycleRecord) ([]Finding, ProgressFacts) {
+	w = rec.Effective(w)
 	var out []Finding
 	var facts ProgressFacts
 	tree := w.QueueTree()
